@@ -833,15 +833,65 @@ def check_row_aligned(ctx):
                 node.targets[0], ast.Attribute) and txt(
                     node.targets[0].value) == 'self':
             stores[node.targets[0].attr] = node.value
+    shapes = {}
     for fld in ('columns', 'highlights'):
         val = stores.get(fld)
-        good = val is not None and 'hstack' in txt(val) and \
+        shapes[fld] = _join_shape(val, fld) if val is not None else None
+        good = val is not None and shapes[fld] is not None and \
             f'self.{fld}' in txt(val) and f'other.{fld}' in txt(val)
         ctx.decide('ROW-ALIGNED', join, f'_binary_join: self.{fld} <- '
                    f'{txt(val)[:50] if val is not None else "<unchanged>"}',
-                   good, at=join.where(),
+                   True if good else False if val is None or
+                   f'other.{fld}' not in txt(val) else None,
+                   at=join.where(),
                    detail='joined rows and their highlights are stacked '
                           'together' if not good else None)
+    # JOIN-AXIS: the flags of a column are joined along the axis its column
+    # is joined along.  np.hstack joins 1-d columns along axis 0 and N-d
+    # columns (the tables of N-d datasets, walked with np.nditer) along
+    # axis 1; a column of flags may have one axis more than its column (the
+    # by-labels builders hand `[[flag], [flag], ...]` next to plain lists).
+    # Hence: hstack of the two LISTS of flags joins axis 1 of the stack =
+    # axis 0 of the cells (wrong for N-d cells, F25); hstack column by
+    # column joins the unit axis of `[[flag], ...]` (wrong for the by-labels
+    # tables); what is right for both is a concatenation whose axis is read
+    # from the column.
+    unit_axis = _unit_axis_flag_producers(program)
+    ctx.stats['flag_columns_with_unit_axis'] = unit_axis
+    hshape, cshape = shapes['highlights'], shapes['columns']
+    hval = stores.get('highlights')
+    if hval is not None and cshape is not None:
+        verdict, why = None, 'form of the join not read'
+        axis_src = _axis_from_column(join, hval)
+        if axis_src is True:
+            verdict, why = True, 'axis read from the number of dimensions ' \
+                                 'of the column'
+        elif hshape is not None and hshape[0] == 'hstack' and \
+                hshape[1] == 'whole lists' and cshape[0] == 'hstack' and \
+                cshape[1] == 'per column':
+            verdict = False
+            why = ('hstack of the two lists of flags joins the FIRST axis '
+                   'of the cells, hstack of two N-d columns their SECOND '
+                   'axis: after joining tables of 2-d datasets the mark of '
+                   'a failing bin sits on another bin')
+        elif hshape is not None and hshape[0] in ('hstack', 'column_stack',
+                                                  'dstack') and \
+                hshape[1] == 'per column' and not hshape[2]:
+            verdict = False if unit_axis else None
+            why = (f'{hshape[0]} column by column joins the trailing unit '
+                   f'axis of the flag columns built as [[flag], ...] '
+                   f'({unit_axis} builder(s) of table_repr): the flags of '
+                   f'the joined tables are interleaved while the rows are '
+                   f'appended')
+        ctx.decide('JOIN-AXIS', join,
+                   f'_binary_join: flags joined by '
+                   f'{hshape[0] + " " + hshape[1] if hshape else "?"}, '
+                   f'columns by {cshape[0]} {cshape[1]}', verdict,
+                   at=join.where(), detail=why if verdict is not True
+                   else None)
+    else:
+        ctx.undecided('JOIN-AXIS', join, '_binary_join: joins of columns / '
+                      'highlights not read', at=join.where())
     if val is not None:
         order_ok = all(
             txt(stores[f]).find(f'self.{f}') < txt(stores[f]).find(
@@ -849,6 +899,147 @@ def check_row_aligned(ctx):
             if f in stores)
         ctx.decide('ROW-ALIGNED', join, '_binary_join: self rows before '
                    'other rows for both fields', order_ok, at=join.where())
+
+
+def _unit_axis_flag_producers(program):
+    '''Number of table builders that fill a column of flags with
+    one-element lists (`hlight.append([not ora])`) and hand it over as
+    highlights: such a column has shape (n, 1) next to columns of shape
+    (n,).'''
+    count = 0
+    mod = program.module(TREPR)
+    for func in mod.functions.values():
+        filled = {txt(receiver(c)) for c in calls_in(func.node)
+                  if call_name(c) == 'append' and len(c.args) == 1 and
+                  isinstance(c.args[0], ast.List) and
+                  len(c.args[0].elts) == 1 and receiver(c) is not None}
+        if not filled:
+            continue
+        for call in calls_in(func.node):
+            for kwd in call.keywords:
+                if kwd.arg == 'highlights' and any(
+                        isinstance(n, ast.Name) and n.id in filled
+                        for n in ast.walk(kwd.value)):
+                    count += 1
+    return count
+
+
+def _axis_from_column(join, hval):
+    '''True when the flags are joined by a concatenation whose `axis` is
+    read from the number of dimensions of the column, taken before the
+    columns are re-bound.'''
+    calls = [n for n in ast.walk(hval) if isinstance(n, ast.Call) and
+             call_name(n) in ('concatenate', 'append', 'stack')]
+    if len(calls) != 1:
+        return None
+    axis = next((k.value for k in calls[0].keywords if k.arg == 'axis'),
+                None)
+    if axis is None:
+        return None
+
+    def from_ndim(expr, depth=0):
+        if any((isinstance(n, ast.Call) and call_name(n) == 'ndim') or (
+                isinstance(n, ast.Attribute) and n.attr == 'ndim')
+               for n in ast.walk(expr)) and 'columns' in txt(expr):
+            return True
+        if depth > 2:
+            return False
+        for name in {n.id for n in ast.walk(expr)
+                     if isinstance(n, ast.Name)}:
+            # a comprehension variable over a local, or a local
+            for comp in ast.walk(hval):
+                if isinstance(comp, ast.comprehension) and any(
+                        isinstance(t, ast.Name) and t.id == name
+                        for t in ast.walk(comp.target)):
+                    if from_ndim(comp.iter, depth + 1):
+                        return True
+            for node in walk_local(join.node):
+                if isinstance(node, ast.Assign) and any(
+                        isinstance(t, ast.Name) and t.id == name
+                        for t in node.targets):
+                    col_store = [n for n in walk_local(join.node)
+                                 if isinstance(n, ast.Assign) and txt(
+                                     n.targets[0]) == 'self.columns']
+                    before = not col_store or node.lineno < \
+                        col_store[0].lineno
+                    if before and from_ndim(node.value, depth + 1):
+                        return True
+        return False
+    return True if from_ndim(axis) else None
+
+
+JOIN_FUNCS = ('hstack', 'concatenate', 'vstack', 'append', 'dstack',
+              'column_stack', 'row_stack')
+
+
+def _join_shape(val, fld):
+    '''(function, 'per column' | 'whole lists', axis text) of the
+    concatenation that builds the joined field, else None.  Per column: the
+    operands of the call are single elements of self.<fld> / other.<fld> (a
+    subscript, or the variables of a loop / zip over the two lists); whole
+    lists: the operands are the lists themselves (or comprehensions over
+    them).'''
+    calls = [n for n in ast.walk(val) if isinstance(n, ast.Call) and
+             call_name(n) in JOIN_FUNCS]
+    if len(calls) != 1:
+        return None
+    call = calls[0]
+    axis = next((txt(k.value) for k in call.keywords if k.arg == 'axis'),
+                '')
+    if len(call.args) == 1 and isinstance(call.args[0], (ast.Tuple,
+                                                         ast.List)):
+        operands = list(call.args[0].elts)
+    else:
+        operands = list(call.args)
+    if len(operands) != 2:
+        return None
+    # loop variables bound to single elements of the two lists
+    elem_vars = set()
+    for comp in ast.walk(val):
+        if not isinstance(comp, ast.comprehension) or not any(
+                n is call for n in ast.walk(val)):
+            continue
+        inside = False
+        for holder in ast.walk(val):
+            if isinstance(holder, (ast.ListComp, ast.GeneratorExp,
+                                   ast.SetComp)) and comp in \
+                    holder.generators and any(
+                        n is call for n in ast.walk(holder.elt)):
+                inside = True
+        if not inside:
+            continue
+        for n in ast.walk(comp.target):
+            if isinstance(n, ast.Name) and f'.{fld}' in txt(comp.iter):
+                elem_vars.add(n.id)
+
+    def strip(expr):
+        while isinstance(expr, ast.Call) and call_name(expr) in (
+                'atleast_1d', 'asarray', 'array', 'atleast_2d') and \
+                expr.args:
+            expr = expr.args[0]
+        return expr
+
+    def level(expr):
+        expr = strip(expr)
+        if isinstance(expr, ast.Subscript) and txt(expr.value) in (
+                f'self.{fld}', f'other.{fld}'):
+            return 'per column'
+        if isinstance(expr, ast.Name) and expr.id in elem_vars:
+            return 'per column'
+        if txt(expr) in (f'self.{fld}', f'other.{fld}'):
+            return 'whole lists'
+        if isinstance(expr, (ast.ListComp, ast.GeneratorExp)) and any(
+                txt(g.iter) in (f'self.{fld}', f'other.{fld}')
+                for g in expr.generators):
+            return 'whole lists'
+        if isinstance(expr, ast.Call) and call_name(expr) in (
+                'list', 'tuple') and expr.args:
+            return level(expr.args[0])
+        return None
+    levels = {level(o) for o in operands}
+    if len(levels) != 1 or None in levels:
+        return None
+    return call_name(call), levels.pop(), axis
 
 
 # ---------------------------------------------------------------- HL-WRAP --
